@@ -84,6 +84,7 @@ IDIRS = ["alg", "aws", "cpusupport", "crypto", "datastruct", "events", "http", "
 CPUCFG = {
     # name: (config header, extra -m flags)
     "all": ("cpusupport-all.h", ["-msse2", "-mssse3", "-msse4.2", "-maes", "-msha", "-mrdrnd"]),
+    "accel": ("cpusupport-accel.h", ["-msse2", "-mssse3", "-msse4.2", "-maes", "-msha"]),   # everything except RDRAND
     "none": ("cpusupport-none.h", []),
     "sse2": ("cpusupport-sse2.h", ["-msse2"]),
     "sse42": ("cpusupport-sse42.h", ["-msse4.2"]),
@@ -228,7 +229,7 @@ def validate_file(spec_dir, module, cfg, trace_path, timeout=1200, xss="512m", e
     raise ToolFailure("trace validation tool failure rc=%d\n%s" % (res.rc, res.out[-3000:]))
 
 
-def validate_executions(spec_dir, module, cfg, execs, workdir, tag="tv", shards=8, timeout=1200, env=None, max_rejects=8):
+def validate_executions(spec_dir, module, cfg, execs, workdir, tag="tv", shards=8, timeout=1200, env=None, max_rejects=8, heavy=False):
     """execs: list of lists of event dicts (one list per execution).  Executions are
     concatenated with {"e":"reset"} lines and validated by TLC in `shards` parallel
     JVMs.  Returns list of indices of rejected executions with the line (within the
@@ -238,7 +239,9 @@ def validate_executions(spec_dir, module, cfg, execs, workdir, tag="tv", shards=
     n = len(execs)
     if n == 0:
         return []
-    shards = max(1, min(shards, (n + 49) // 50))
+    total_events = sum(len(x) for x in execs)
+    # enough work per JVM start: at least ~50 executions or ~4000 events per shard
+    shards = max(1, min(shards, n) if heavy else min(shards, n, max((n + 49) // 50, total_events // 4000)))
     bounds = [(i * n // shards, (i + 1) * n // shards) for i in range(shards)]
 
     def run_shard(k):
@@ -459,7 +462,7 @@ def run_programs(exe, programs, workdir, tag="run", procs=8, timeout=600, env=No
     n = len(programs)
     if n == 0:
         return [], []
-    procs = max(1, min(procs, (n + 19) // 20))
+    procs = max(1, min(procs, n, max((n + 19) // 20, sum(len(p) for p in programs) // 200000)))
     bounds = [(i * n // procs, (i + 1) * n // procs) for i in range(procs)]
     execs = [None] * n
     crashes = []
@@ -522,7 +525,7 @@ def read_ndjson_tolerant(path):
 
 
 def conformance(c, exe, programs, spec_dir, module, cfg, tag, meta=None, procs=8, shards=8, env=None,
-                known=None, tv_timeout=1200, run_timeout=600, nontrivial=None, extra_args=()):
+                known=None, tv_timeout=1200, run_timeout=600, nontrivial=None, extra_args=(), heavy=False):
     """Run programs in the real code, validate all executions against the trace specification,
     confirm each rejection by re-running its program alone, report.  `known(program, execution, line)`
     may return a known-finding description.  Returns number of validated executions."""
@@ -546,7 +549,7 @@ def conformance(c, exe, programs, spec_dir, module, cfg, tag, meta=None, procs=8
     crashed = set(i for (i, _, _) in crashes)
     good = [i for i in idx if i not in crashed]
     t_run = time.time()
-    rej = validate_executions(spec_dir, module, cfg, [execs[i] for i in good], wd, tag=tag + "tv", shards=shards, timeout=tv_timeout, env=env)
+    rej = validate_executions(spec_dir, module, cfg, [execs[i] for i in good], wd, tag=tag + "tv", shards=shards, timeout=tv_timeout, env=env, heavy=heavy)
     for (j, line) in rej:
         i = good[j]
         # re-run the program alone and validate again
